@@ -21,7 +21,8 @@ CORE_VARS = ["x", "y", "z", "v", "i", "j", "r"] + ["w%d" % i for i in range(1, 1
 # the main thread sits in a blocking builtin (read / wait / select) when the context is cancelled, and that
 # builtin is the last thing the program does
 BLOCKED_LAST = ("read_blocked", "while_read_blocked", "read_in_func", "select_blocked", "bg_loop_wait",
-                "bg_two_loops_wait", "bg_loop_wait_pid", "bg_read_wait")
+                "bg_two_loops_wait", "bg_loop_wait_pid", "bg_read_wait", "procsubst_read_loop", "pipe_reader_blocked",
+                "pipe_writer_loop", "herestring_loop", "heredoc_loop")
 
 HEADER = """From Verif Require Import Base.Str Interp.Core Interp.Flags.
 From Coq Require Import String.
